@@ -225,6 +225,26 @@ func addDupEv(b *types.Block, defect string) {
 	b.Header.EvidenceHash = b.Evidence.Hash()
 }
 
+// firstProposer: index (in csim's order: validators sorted by address) of the proposer of height 1, round 0.
+func firstProposer(n int, powers []int64) int {
+	pvs := make([]*csim.PV, n)
+	for i := range pvs {
+		pvs[i] = csim.NewPV(i)
+	}
+	sort.Slice(pvs, func(i, j int) bool { return bytes.Compare(pvs[i].GetAddress(), pvs[j].GetAddress()) < 0 })
+	var vals []*types.Validator
+	for i, pv := range pvs {
+		vals = append(vals, &types.Validator{Address: pv.GetAddress(), PubKey: pv.GetPubKey(), VotingPower: powers[i]})
+	}
+	p := types.NewValidatorSet(vals).GetProposer()
+	for i, pv := range pvs {
+		if bytes.Equal(pv.GetAddress(), p.Address) {
+			return i
+		}
+	}
+	return 0
+}
+
 type exec struct {
 	last *csim.SimResult
 	next map[int]int
@@ -319,8 +339,14 @@ func (P) Generate(g *hx.Gen) {
 			for i := range powers {
 				powers[i] = 10
 			}
-			byz[g.Rng.Intn(n)] = true
 			from := 1 + rep%2 // corrupt from height 1, or only from height 2 (needs a real last commit)
+			if from == 1 {
+				// the Byzantine validator is the proposer of height 1, round 0: the FIRST block is a corrupted one (some checks
+				// are special-cased for the first height)
+				byz[firstProposer(n, powers)] = true
+			} else {
+				byz[g.Rng.Intn(n)] = true
+			}
 			bs := make([]string, n)
 			for i, b := range byz {
 				bs[i] = "0"
